@@ -78,7 +78,12 @@ theorem possible_types_after_history (s : SchemaD) (σ : Server) (hist : List Re
 
 /-- **history_independent**: the response to a request served after ANY history of other requests — on the same schema
     object and on the same shared parsed documents, with whatever variables and worlds — is the response of that
-    request served alone by a fresh server holding the same documents. -/
+    request served alone by a fresh server holding the same documents.
+    TRUE BY CONSTRUCTION (audit C04-F2): `serve` computes the response with `execute`, which has no cache parameter, so the
+    persisted `pcache` is never read by the response component; the content of this file is `possible_types_after_history`
+    (a cache filled only through `getPossibleTypesC` equals the stateless function). The tie of "the result does not depend
+    on requests previously served by the same schema object" to the code is the correspondence's HISTORY STREAM (k earlier
+    requests on the same `Schema` object and the same parsed documents before the compared one, `ctx.later` re-runs). -/
 theorem history_independent (s : SchemaD) (σ : Server) (hist : List Request) (r : Request) :
     (serve s (serveAll s σ hist).2 r).1 = (serve s { pcache := [], docs := σ.docs } r).1 := by
   simp only [serve, serveAll_docs_unchanged]
